@@ -300,6 +300,14 @@ def gap(rng, style, left, right, ctx):
 DECL_KW = ('Token', 'Start', 'Right', 'Skip', 'Part')
 
 
+EOF_COMMENTS = ['// done', '/// d', '//', '// c x', '///', '//x', '// a b c', '/// / x']
+
+
+def eof_comment_layout(rng, text):
+    """the text with a line or doc comment behind its last token and NO newline behind the comment (finding D28)"""
+    return text.rstrip(' \t\r\n\x0c') + rng.choice(['', ' ', '  ', '\n', '\n\n', '\t']) + rng.choice(EOF_COMMENTS)
+
+
 def relayout(rng, toks, keep_comments=True):
     """toks: [(kind, lexeme)] from the real lexer (trivia included or not).  returns a text with the
     same significant tokens, in the same order, separated by random whitespace and comments.
